@@ -962,11 +962,20 @@ class OrthoBase(Base):
             if obj is mr:
                 mr = before  # the request as written by the caller at call time (the list may have been rewritten meanwhile)
         exact = (thr == 0) and (not isinstance(mr, list)) and mr == np.inf
+        if thr == 0 and isinstance(mr, list) and len(mr) == d + 1:
+            # a per-bond list none of whose entries binds (every bound at least the rank of its bond): still a sweep without truncation
+            try:
+                exact = all(float(m_) >= float(r_) for m_, r_ in zip(mr, s.ranks))
+            except Exception:
+                exact = False
         tags = ['side=' + self.side]
         Dold = s.dense_b()
         Dnew = dense_b_cores(t.cores)
         sc = float(np.max(np.abs(Dold))) if Dold.size else 0.0
         sig = [self.api, s.shape_sig(), exact, v.get('range')]
+        if exact and isinstance(mr, list):
+            self.ck('rank_bound', all(t.ranks[k] <= mr[k] for k in range(d + 1)), [s], {'max_ranks': list(mr), 'ranks': list(t.ranks)}, tags, prop='C04')
+            self.ck('ranks_not_increased', all(a <= b for a, b in zip(t.ranks, s.ranks)), [s], {'old': s.ranks, 'new': list(t.ranks)}, tags, prop='C04')
         if exact:
             self.ck('value_preserved', Dnew.shape == Dold.shape and close(Dnew, Dold, 1e-9, scale=s.floor()), [s],
                     {'relerr': relerr(Dnew, Dold), 'shape': s.shape_sig(), 'range': v.get('range')}, tags)
